@@ -1024,7 +1024,7 @@ LEVEL_TEXT = ("Proof. Lean 4 theorems (C08.*) about a hand-written executable mo
               "(with_full_path) or a partial path / node name matching exactly one node (FromOK.partial, find_path semantics); "
               "(3) frame_all_flags(_step, _mem) - for EVERY flag combination (copy, skippable, overriding, merge_children, "
               "merge_leaves, delete_children, with_full_path), same-tree and tree-to-tree, every tree and every string (no "
-              "hypothesis at all): the nodes that lie neither below the from-node nor below the existing destination keep their "
+              "hypothesis at all): the nodes that lie neither below the from-node (a SHIFT within one tree; a copy leaves its origin alone) nor below the existing destination keep their "
               "identity, path, attributes and relative order (their entry list is a sublist of the result's); "
               "replace_frame_all_flags(_step, _mem) - the same for replace_logic as a sub-multiset (the re-append loop permutes "
               "siblings in between). "
